@@ -12,7 +12,7 @@ RULE = ("fault sequences x schedules on the simulated network (virtual time, unp
         "(A) EVERY sequence of pair-verify outcome classes {success, wrong pairing id, authentication error, other error, no answer} up to length 3 (quick) / 5 (thorough) "
         "x 1..3 advertised addresses x TCP outcomes {refused, timeout, connects to k-th address}, concrete accessory behaviour per class drawn from "
         "{bad signature, error TLV 1..7 at M2/M4, peer close at M1/M3, HTTP 470, malformed public key}; (B) EVERY schedule up to depth 3 (quick) / 4 (thorough) over "
-        "{ensure-connection with/without own timeout, cancel caller, advance 0.75 s / 12 s, zeroconf update same/changed addresses, close, shutdown, accessory drops a connection}; "
+        "{ensure-connection with/without own timeout, cancel caller, advance 0.75 s / 12 s, zeroconf update same/changed addresses, close, shutdown, accessory drops a connection, a reply that makes the request layer abandon the session (malformed JSON, HTTP 470)}; "
         "(C) random mixed histories incl. hour-long runs that reach the 60 s cap. non-trivial = distinct (addresses, history)")
 TRUSTED = ["harness/simnet.py virtual-time loop and in-memory transport follow the asyncio contracts the code relies on", "harness/acc.py scaffold accessory (pair-verify via `cryptography`)",
            "aiohappyeyeballs.start_connection / loop.create_connection are replaced by the simulated network", "async_interrupt wakes the sleeping connector within the same virtual instant"]
@@ -75,7 +75,7 @@ def run_cases(ctx: Ctx, driver: Driver, pid, sigs, cases):
                 ctx.violation(f"ip/{sig}", text, vcase)
         cs.append(case)
         impl.append(" ; ".join(x.strip() for x in sim.lines))
-        lines.append(rcsim.model_line(hosts, events))
+        lines.append(rcsim.model_line_of(hosts, sim))
     ctx.dist["max_virtual_seconds"] = int(maxv)
     if cs:
         ctx.sample(cs[min(7, len(cs) - 1)])
